@@ -532,7 +532,7 @@ func loopBlock(b *ssa.BasicBlock) bool {
 
 // R03.3
 var ruleCloneChain = &core.Rule{ID: "R03.3", Min: 5,
-	Doc: "chain clone: returns the clone of the receiver (with the parameter map); loops p = parent(receiver); p != nil; p = parent(p); each ancestor is cloned without parameters and linked as parent of the previous clone; a copy is a call of the clone function or a node allocated in place; it copies type, aliases, extension and nothing else",
+	Doc: "chain clone: returns the clone of the receiver (with the parameter map); loops p = parent(receiver); p != nil; p = parent(p); each ancestor is cloned without parameters and linked as parent of the previous clone; a copy is a call of the clone function or a node allocated in place; it copies type, aliases, extension and nothing else; the side of the nil test taken while an ancestor exists is the one that stays in the loop",
 	Run: func(c *core.Ctx, s *core.Sink) {
 		m := getWalk(c)
 		f := m.chain
@@ -901,7 +901,7 @@ func checkCopyFields(c *core.Ctx, s *core.Sink, m *walkModel, bodies []*nodeCopy
 
 // R02.2 + R02.3
 var ruleParams = &core.Rule{ID: "R02.2", Min: 5,
-	Doc: "parameter discipline: the parameter map given to the chain clone is fresh and written only with the constant key charset, only with the non-empty result of the sniffer selected by the current node's own type (map lookup, selection function, or direct calls under tests of the type) on the walk's unmodified header; the clone turns it into the result's type string only through mime.FormatMediaType(registered type, map)",
+	Doc: "parameter discipline: the parameter map given to the chain clone is fresh and written only with the constant key charset, only with the non-empty result of the sniffer selected by the current node's own type (map lookup, selection function, or direct calls under tests of the type) on the walk's unmodified header; the clone turns it into the result's type string only through mime.FormatMediaType(registered type, map); a copy that is handed parameters has mime.FormatMediaType(type, ps) among the sources of its type string",
 	Run: func(c *core.Ctx, s *core.Sink) {
 		m := getWalk(c)
 		cm := getCharset(c)
@@ -1886,7 +1886,7 @@ func (rc *readerCheck) buffer(f *ssa.Function, v, r, lim ssa.Value, key string, 
 
 // R04.1 limit slicing in the bytes entry
 var ruleLimitSlice = &core.Rule{ID: "R04.1", Min: 5,
-	Doc: "the bytes entry hands the walk exactly the first `limit` bytes: tabulated over the order types of (limit = 0?, len vs limit) the walk receives the parameter itself iff limit = 0 or len <= limit, else in[:limit] with the snapshot limit, which is also the limit argument (the cut may sit in a helper or method of a named limit type; a bound built by min / max alone is judged by its value)",
+	Doc: "the bytes entry hands the walk exactly the first `limit` bytes: tabulated over the order types of (limit = 0?, len vs limit) the walk receives the parameter itself iff limit = 0 or len <= limit, else in[:limit] with the snapshot limit, which is also the limit argument (the cut may sit in a helper or method of a named limit type; a bound built by min / max alone is judged by its value); every exported func(uint32) of the root package stores its parameter atomically into the limit variable on every path",
 	Run: func(c *core.Ctx, s *core.Sink) {
 		m := getWalk(c)
 		cm := getConc(c)
